@@ -57,6 +57,11 @@ def _par(rng):
 def generate(rng, tier):
     n = 900 if tier == "quick" else 40000
     cases = [{"vb": "0 0 abc 10", "par": None, "dw": F(100), "dh": F(100), "family": "non-numeric-witness"}]
+    # non-positive document sizes with a valid viewBox: the identity whatever preserveAspectRatio says (every alignment incl. none, meet / slice, defer)
+    for al in ALIGNS:
+        for dw, dh in ((0, 200), (300, 0), (-300, 200), (100, -1), (0, 0)):
+            toks = (["defer"] if rng.random() < 0.3 else []) + [_case_variant(rng, al)] + rng.choice([[], ["meet"], ["slice"]])
+            cases.append({"vb": "%s %s %s %s" % (_num(rng), _num(rng), _pos(rng), _pos(rng)), "par": " ".join(toks), "dw": F(dw), "dh": F(dh), "family": "valid/doc-non-positive/" + al})
     for _ in range(n):
         k = rng.random()
         fam = "valid"
